@@ -62,8 +62,12 @@ func c17Eval(s *vh.Session, c c17Case) (string, string) {
 			less := cloneTree(good)
 			less.Convs = less.Convs[:len(less.Convs)-1]
 			// converters are sorted by id; rebuild the declaring files without the last one
+			declaring := map[string]bool{}
+			for _, cv := range good.Convs {
+				declaring[cv.File] = true
+			}
 			for f := range less.Files {
-				if strings.HasSuffix(f, "/conv.go") || strings.HasSuffix(f, "/more.go") {
+				if declaring[f] {
 					delete(less.Files, f)
 					_ = os.Remove(filepath.Join(dir, f))
 				}
@@ -219,6 +223,8 @@ func TestC17(t *testing.T) {
 				SharedFile: true,
 				Vars:       true,
 				MaxConvs:   6,
+				// besides faults of single converters: packages that do not parse or type-check
+				FaultKinds: []string{"directive", "signature", "conversion", "unknown-field", "enum-key", "syntax-above", "syntax-below", "type-error"},
 			}
 			_ = dirHint
 			tree := gen.Layout(rt, o)
